@@ -6,7 +6,8 @@
    It is compared with the transliterated calAndSetEventNode pass (`eventize (compile t)`) and with Go's own
    event-mode program on every correspondence case (codes 10 and 3). In the model an OP_EXEC event IS the
    observation `OCall name fast args result` made when the operator is applied; a LOOP event is `OLoop`. *)
-Require Import Base Opcode Tables Ops Tree Opt Flat FlatE Run CompFacts EvalDefs EvalTop EvalCorrectE EvalTopE TryCorrect TryCorrectE Print DumpStruct DumpStructE.
+Require Import Base Opcode Tables Ops Tree Opt Flat FlatE Run CompFacts EvalDefs EvalTop EvalCorrectE EvalTopE TryCorrect TryCorrectE Print DumpStruct DumpStructE LoopOrder LoopOrderT.
+From Coq Require Import Sorted.
 Open Scope Z_scope.
 
 (* Eval of the event program: the result (value or the very error), the fetches and the OP_EXEC events —
@@ -35,6 +36,16 @@ Proof. exact try_events_transparent. Qed.
 (* ... nor the decompiled program *)
 Theorem C12_dump_unchanged : forall t, dump (compileE t) = dump (compile t).
 Proof. exact dump_events_transparent. Qed.
+
+(* LOOP events report strictly increasing positions (the event node in front of the real node at index p reports p;
+   every jump of the evaluator goes forward): 0 followed by the reported positions is strictly increasing, for Eval
+   and for TryEval, on every tree, fetcher, operator table and availability predicate *)
+Theorem C12_loop_positions_increase : forall fetch custom t,
+  LocallySorted Z.lt (0 :: loops (fst (eval fetch custom (compileE t)))).
+Proof. exact loops_sorted. Qed.
+Theorem C12_try_loop_positions_increase : forall fetch custom cached t,
+  LocallySorted Z.lt (0 :: loops (fst (tryeval fetch custom cached (compileE t)))).
+Proof. exact try_loops_sorted. Qed.
 
 (* without event nodes no LOOP event is ever emitted *)
 Theorem C12_plain_no_loops : forall fetch custom t,
@@ -66,3 +77,5 @@ Proof. vm_compute. split; reflexivity. Qed.
 Print Assumptions C12_event_program_is_sem.
 Print Assumptions C12_events_transparent.
 Print Assumptions C12_tryeval_events_transparent.
+Print Assumptions C12_loop_positions_increase.
+Print Assumptions C12_try_loop_positions_increase.
